@@ -39,3 +39,22 @@ def gen_stream(tier, seed, work):
     return {'stream_bufs': path}, {'module': 'MC_Stream', 'cfg': cfg, 'states': res.get('states', 0),
                                    'distinct': res.get('distinct', 0), 'transitions_emitted': len(items),
                                    'distinct_buffers': len(uniq), 'wall_s': round(res['wall'], 2)}
+
+
+def gen_threads(tier, seed, work):
+    """every complete interleaving of Threads.tla = one schedule for the line-level scheduler"""
+    cfg = 'MC_Threads_gen' if tier == 'quick' else 'MC_Threads_gen2'
+    res = tlc.run_tlc(os.path.join(tlc.SPEC, 'mc', 'MC_Threads.tla'), os.path.join(tlc.SPEC, 'mc', cfg + '.cfg'),
+                      workers=1, xmx='6g', xss='64m')
+    if 'Model checking completed. No error has been found.' not in res['out']:
+        raise tlc.MachineryError('S2C generator MC_Threads/%s failed\n%s' % (cfg, res['out'][-3000:]))
+    items = parse_s2c(res['out'])
+    import random
+    random.Random(seed).shuffle(items)
+    items = items[:5000]
+    path = os.path.join(work, 'schedules.ndjson')
+    with open(path, 'w') as f:
+        for it in items:
+            f.write(json.dumps(it) + '\n')
+    return {'schedules': path}, {'module': 'MC_Threads', 'cfg': cfg, 'states': res.get('states', 0),
+                                 'distinct': res.get('distinct', 0), 'schedules': len(items), 'wall_s': round(res['wall'], 2)}
